@@ -91,6 +91,31 @@ func cast(iface interface{}) interface{} {
 			n[i] = cast(v[i])
 		}
 		return n
+	// Numbers: JSON decoding gives float64, but Go code (and Javascript
+	// that returns an integral number) gives other types, which the
+	// matcher does not find equal to a float64 inside an array.
+	case int:
+		return float64(v)
+	case int8:
+		return float64(v)
+	case int16:
+		return float64(v)
+	case int32:
+		return float64(v)
+	case int64:
+		return float64(v)
+	case uint:
+		return float64(v)
+	case uint8:
+		return float64(v)
+	case uint16:
+		return float64(v)
+	case uint32:
+		return float64(v)
+	case uint64:
+		return float64(v)
+	case float32:
+		return float64(v)
 	default:
 		if v, ok := ISlice(v); ok {
 			return cast(v)
